@@ -6,9 +6,10 @@ SPEC = {
     "audit_file": "AgdbColl/Audit/C19.lean",
     "full_theorems": ["C19_inv_reachable", "C19_mutators_terminate", "C19_insert_terminates",
                       "C19_insert_or_replace_terminates", "C19_remove_key_terminates",
-                      "C19_remove_value_terminates", "C19_reserve_terminates", "C19_value_terminates",
+                      "C19_remove_value_terminates", "C19_reserve_terminates", "C19_value_terminates", "C19_index_nowrap", "C19_values_terminates",
+                      "C19_values_terminates_partial",
                       "C19_every_history_runs"],
-    "partial_theorems": ["C19_values_terminates_partial"],
+    "partial_theorems": [],
     "counterexamples": ["C19_tombstone_counterexample"],
     "driver": "collmodel",
     "harness_bin": "harness_coll",
@@ -21,18 +22,19 @@ SPEC = {
                    "rehash loop it runs, returns ok for every fuel >= 6*capacity+200 (terminates, no panic), via the inductive "
                    "invariant len = #Valid slots and len <= max_len (C19_inv_reachable); every history runs to completion "
                    "(C19_every_history_runs); a single MultiMapIterator::next (value / contains) terminates on any table "
-                   "(C19_value_terminates). PARTIAL (C19_values_terminates_partial): draining iter_key (values / values_count / "
-                   "contains_value, used by index search) terminates on every table where the slot before the key's home does not "
-                   "hold the key; that this holds after every history of the index multimap's operations is argued (load limit, "
-                   "Lemmas/NoWrap.lean) but not fully machine-checked, and it is false for mixed insert_or_replace + values histories "
-                   "(latent iterator defect, known finding, no database map is used that way). COUNTEREXAMPLE "
+                   "(C19_value_terminates). FULL (C19_values_terminates, via C19_index_nowrap): draining iter_key (values / values_count / "
+                   "contains_value; in the database only the index multimap does this) returns after EVERY history of the operations "
+                   "the index multimap uses (insert / remove_key / remove_value / reserve with all rehashes): free_index and the "
+                   "rehash probe place a pair at the first free slot from its home, so under the 15/16 load limit no pair sits in the "
+                   "slot before its home, which is the only way the iterator can be restarted (for tables ALSO filled through "
+                   "insert_or_replace that can happen - latent, observed only in the hook-level stream, no database map is used both "
+                   "ways). COUNTEREXAMPLE "
                    "(C19_tombstone_counterexample): on the pinned code the 65th insert_or_replace after 64 insert/remove cycles "
                    "diverges for every fuel (general divergence lemma + decide +kernel fact about the reachable 64-tombstone table). "
                    "Tie: slot-level differential stream on the real MultiMapStorage<u64,u64> (hook H2-coll: per-op state/key/value dump, "
                    "len, capacity, iteration order) + stable_hash stream + query-level stream on DbMemory (alias and indexed-value "
                    "churn) with a per-call watchdog (worker process killed after 3 s / 10 s) as the termination oracle."),
-    "level_note": ("Category other because one statement (whole-iteration termination of iter_key) is only partial and graph unlink "
-                   "loops / searches / storage loops are outside this group's model (see C08, C14, C17, C01). Trusted: Lean kernel; the "
+    "level_note": ("Graph unlink loops / searches / storage loops are outside this group's model (see C08, C14, C17, C01). Trusted: Lean kernel; the "
                    "hand-written model being faithful (validated per slot by the mm stream when hook H2-coll is in the tree, otherwise "
                    "only at query level); watchdog time bound as the meaning of 'never returns'; u64 arithmetic modelled on Nat "
                    "(capacity*15 does not overflow for capacities < 2^60)."),
